@@ -1,25 +1,82 @@
 ID = 'C08'
-# same wrapper TU, different operator-new block sizes (a vector<string> of k pieces needs 32*pow2ceil(k) bytes)
-SSO = dict(wrap='wrap.cc', cxxflags=['-fno-inline'], cuts=['basic_stringIcSt11char_traitsIcESaIcEE9_M_createERmm$'], extra_c=['sso_bound.c'])
-UNITS = {'str64': dict(SSO, new_block=64), 'str128': dict(SSO, new_block=128), 'str256': dict(SSO, new_block=256)}
+# Two encodings of the same wrapper TU (wrap.cc):
+#  P*: fast.  -fno-inline keeps std::string::_M_create a function, which is cut and turned into a reported bound failure
+#      (sso_bound.c: every std::string <= 15 bytes, i.e. inside the small-string buffer); operator new is the deterministic
+#      pool allocator of rt_model.c (VERIF_NEW_POOL); translator options --ptrdiff/--flat-unions. All libstdc++ vector/string
+#      code that runs for short strings is still the real code.
+#  X*: exact. default inlining, CBMC malloc model for operator new, no cut. Only feasible for tiny cells; run as a cross-check
+#      of the model bounds above.
+OPT = ['--ptrdiff', '--flat-unions']
+SSO = dict(wrap='wrap.cc', cxxflags=['-fno-inline'], cuts=['basic_stringIcSt11char_traitsIcESaIcEE9_M_createERmm$'], extra_c=['sso_bound.c'], ir2c_flags=OPT)
+UNITS = {
+    'P64': dict(SSO, new_block=64, gen_defs=['VERIF_NEW_POOL=8']),
+    'P128': dict(SSO, new_block=128, gen_defs=['VERIF_NEW_POOL=8']),
+    'P256': dict(SSO, new_block=256, gen_defs=['VERIF_NEW_POOL=8']),
+    'X128': dict(wrap='wrap.cc', new_block=128, ir2c_flags=OPT),
+}
 BOUNDS = ''
 STUBS = []
 OUTSIDE = []
 ASSUMPTIONS = []
-FAST = ['--max-field-sensitivity-array-size', '16']
+FS = ['--max-field-sensitivity-array-size', '256']
 
 
-def vec_unit(pieces):
-    return 'str64' if pieces <= 2 else 'str128' if pieces <= 4 else 'str256'
+def punit(pieces):
+    """vector<string> of k pieces needs a 32*pow2ceil(k) byte block"""
+    return 'P64' if pieces <= 2 else 'P128' if pieces <= 4 else 'P256'
+
+
+def Q(name, unit, harness, defs, unwind, desc, bounds, timeout=900, mem_gb=6, **kw):
+    d = dict(name=name, unit=unit, harness=harness, defs=defs, unwind=unwind, timeout=timeout, mem_gb=mem_gb, flags=FS, desc=desc, bounds=bounds)
+    d.update(kw)
+    return d
 
 
 def queries(tier):
+    quick = tier == 'quick'
     qs = []
-    for L in ([0, 1, 2, 3] if tier == 'quick' else [0, 1, 2, 3, 4, 5]):
+    for L in ([0, 1, 2, 3] if quick else [0, 1, 2, 3, 4, 5]):
         for mode in (0, 1):
-            qs.append(dict(name='split_%s_len%d' % (('laws', 'join')[mode], L), unit=vec_unit(L + 1), harness='h_split.c', defs={'LEN': L, 'MODE': mode},
-                           unwind=L + 2, timeout=900, mem_gb=14, backend='cadical', flags=FAST,
-                           desc='split on %d symbolic bytes, symbolic delimiter and max_splits' % L, bounds='len(s) == %d, all byte values, max_splits in [0,%d]' % (L, L + 1)))
-    for e in (0,1):
-        qs.append(dict(name='exp%d' % e, unit='str128', harness='h_exp.c', defs={'LEN': 2, 'EXP': e}, unwind=4, timeout=600, mem_gb=14, backend='cadical', flags=FAST))
+            qs.append(Q('split_%s_len%d' % (('laws', 'join')[mode], L), punit(L + 1), 'h_split.c', {'LEN': L, 'MODE': mode}, L + 2,
+                        'split on %d symbolic bytes, symbolic delimiter and max_splits: ' % L + ('piece count, pieces spell s (reference join), delimiter-free pieces' if mode == 0 else 'phosg join(split(s,d,m),d) == s'),
+                        'len(s) == %d, all byte values, all delimiters, max_splits in [0,%d]' % (L, L + 1)))
+    for L in ([1] if quick else [1, 2]):
+        qs.append(Q('split_laws_exact_len%d' % L, 'X128', 'h_split.c', {'LEN': L, 'MODE': 0}, L + 2, 'as split_laws, exact encoding (CBMC malloc, inlined libstdc++, no string-length cut)',
+                    'len(s) == %d' % L, backend='cadical', mem_gb=10))
+    for L in ([0, 1, 2, 3] if quick else [0, 1, 2, 3, 4]):
+        for mode in (0, 1):
+            qs.append(Q('splitctx_%s_len%d' % (('ref', 'join')[mode], L), punit(L + 1), 'h_splitctx.c', {'LEN': L, 'MODE': mode}, L + 2,
+                        'split_context on %d symbolic bytes, symbolic delimiter and max_splits vs reference bracket/quote scanner: ' % L + ('exact pieces / runtime_error iff unbalanced' if mode == 0 else 'phosg join inverts it when accepted'),
+                        'len(s) == %d, all byte values, all delimiters, max_splits in [0,%d]' % (L, L + 1)))
+    for L in ([0, 1, 2, 3] if quick else [0, 1, 2, 3, 4, 5]):
+        qs.append(Q('splitargs_len%d' % L, punit((L + 1) // 2 + 1), 'h_splitargs.c', {'LEN': L}, L + 2,
+                    'split_args on %d symbolic bytes vs reference shell-style tokenizer: exact arguments / runtime_error iff incomplete escape or open quote' % L, 'len(s) == %d, all byte values' % L))
+    names = ['trailing_zeroes', 'trailing_ws', 'leading_ws', 'ws', 'comments']
+    for which in range(5):
+        for L in ([0, 1, 2, 3, 4] if quick else [0, 1, 2, 3, 4, 5, 6]):
+            qs.append(Q('strip_%s_len%d' % (names[which], L), 'P64', 'h_strip.c', {'WHICH': which, 'LEN': L}, max(L + 2, 6),  # strlen(" \\t\\r\\n") in find_*_not_of
+                        'strip_%s on %d symbolic bytes equals the reference definition' % (names[which], L), 'len(s) == %d, all byte values' % L))
+    for which, nm in ((0, 'starts_with'), (1, 'ends_with')):
+        for L, P in ([(0, 0), (0, 1), (1, 1), (2, 1), (2, 2), (1, 2), (3, 2)] if quick else [(l, p) for l in range(0, 5) for p in range(0, 4)]):
+            qs.append(Q('%s_len%d_p%d' % (nm, L, P), 'P64', 'h_misc.c', {'WHICH': which, 'LEN': L, 'PL': P}, max(L, P) + 2, nm + ' vs reference', 'len(s) == %d, len(prefix) == %d, all byte values' % (L, P)))
+    for which, nm in ((2, 'toupper'), (3, 'tolower')):
+        for L in ([0, 1, 3] if quick else [0, 1, 2, 3, 4, 5]):
+            qs.append(Q('%s_len%d' % (nm, L), 'P64', 'h_misc.c', {'WHICH': which, 'LEN': L}, L + 2, nm + ' vs reference', 'len(s) == %d, all byte values' % L))
+    for L, T, R in ([(0, 1, 1), (1, 1, 0), (2, 1, 2), (2, 2, 1), (3, 2, 0), (3, 1, 1)] if quick else [(l, t, r) for l in range(0, 5) for t in (1, 2) for r in (0, 1, 2)]):
+        qs.append(Q('replace_len%d_t%d_r%d' % (L, T, R), 'P64', 'h_misc.c', {'WHICH': 4, 'LEN': L, 'TL': T, 'RL': R}, 2 * L + 3, 'str_replace_all vs reference',
+                    'len(s) == %d, target %d bytes, replacement %d bytes (non-NUL), all byte values' % (L, T, R)))
+    for which, nm in ((5, 'skip_whitespace'), (6, 'skip_non_whitespace'), (7, 'skip_word')):
+        for L in ([0, 1, 3] if quick else [0, 1, 2, 3, 4, 5]):
+            qs.append(Q('%s_len%d' % (nm, L), 'P64', 'h_misc.c', {'WHICH': which, 'LEN': L}, L + 2, nm + ' (std::string and const char* overloads) vs reference',
+                        'len(s) == %d, all byte values, offset in [0, length]' % L))
+    for L in ([0, 1, 3] if quick else [0, 1, 2, 3, 5, 8]):
+        qs.append(Q('printf_len%d' % L, 'P64', 'h_printf.c', {'LEN': L, 'FAIL': 0}, L + 2, 'string_printf wrapper logic around a contract vasprintf returning %d symbolic bytes' % L,
+                    'vasprintf result of %d bytes (any values incl. NUL)' % L, flags=FS + ['--memory-leak-check']))
+    qs.append(Q('printf_null', 'P64', 'h_printf.c', {'LEN': 1, 'FAIL': 1}, 3, 'vasprintf yields NULL => bad_alloc', 'vasprintf failure'))
+    jc = [(0, 2, 0, 1), (1, 2, 0, 1), (1, 2, 2, 1), (2, 2, 0, 1), (2, 2, 1, 2), (2, 2, 2, 1), (3, 1, 0, 1)]
+    if not quick:
+        jc += [(3, 2, 0, 1), (3, 1, 1, 2), (3, 1, 2, 1), (4, 1, 0, 1)]
+    for C, ml, mode, dn in jc:
+        qs.append(Q('join_%s_n%d_l%d' % (('char', 'str%d' % dn, 'nodelim')[mode], C, ml), punit(C), 'h_join.c', {'COUNT': C, 'ML': ml, 'MODE': mode, 'DN': dn}, ml * C + dn * C + 3,
+                    'join of %d items (lengths symbolic 0..%d, symbolic bytes) equals the reference concatenation' % (C, ml), '%d items of 0..%d bytes, delimiter %s' % (C, ml, ('1 char', '%d-byte string' % dn, 'none')[mode])))
     return qs
